@@ -15,6 +15,14 @@ pub enum Address {
 
 impl Address {
     pub(crate) async fn resolve(&self) -> std::io::Result<std::net::SocketAddr> {
+        #[cfg(bmwill_anemo_verif)]
+        if crate::verif::active() {
+            // Literal socket addresses need no resolver thread; keep the simulated schedule free
+            // of real threads.
+            if let Address::SocketAddr(addr) = self {
+                return Ok(*addr);
+            }
+        }
         let address = self.to_owned();
 
         tokio::task::spawn_blocking(move || address.resolve_blocking())
